@@ -157,9 +157,12 @@ def build_backoff(b: Dict[str, Any], attempts: int, jitter: List[float]):
         kw['jitter'] = CyclicJitter(list(jitter))
     if b['kind'] == 'periodic':
         return retry.PeriodicBackoff(interval=b['interval'], **kw)
+    # 'max': 'default' - the cap is not passed at all: the documented defaults apply (exponential: no cap, Fibonacci: 1.0)
+    if b['max'] != 'default':
+        kw['max_value'] = b['max']
     if b['kind'] == 'exponential':
-        return retry.ExponentialBackoff(base=b['base'], factor=b['factor'], max_value=b['max'], **kw)
-    return retry.FibonacciBackoff(multiplier=b['multiplier'], max_value=b['max'], **kw)
+        return retry.ExponentialBackoff(base=b['base'], factor=b['factor'], **kw)
+    return retry.FibonacciBackoff(multiplier=b['multiplier'], **kw)
 
 
 def build_strategy(s: Dict[str, Any]):
@@ -180,18 +183,21 @@ def model_delays(s: Dict[str, Any]) -> List[float]:
     fib = [1, 2]
     while len(fib) < n + 2:
         fib.append(fib[-1] + fib[-2])
+    cap = b.get('max')
+    if cap == 'default':
+        cap = None if b['kind'] == 'exponential' else 1.0
     for k in range(n):
         j = jit[k % len(jit)]
         if b['kind'] == 'periodic':
             v = b['interval'] + j
         elif b['kind'] == 'exponential':
             v = b['base'] * (b['factor'] ** k) + j
-            if b['max'] is not None:
-                v = min(b['max'], v)
+            if cap is not None:
+                v = min(cap, v)
         else:
             v = b['multiplier'] * fib[k] + j
-            if b['max'] is not None:
-                v = min(b['max'], v)
+            if cap is not None:
+                v = min(cap, v)
         out.append(v)
     return out
 
@@ -256,4 +262,14 @@ def make_tracers(n: int, log: List[List[Any]], style: str = 'full'):
             if style == 'super':
                 super().on_error(trace_context, request, error)
 
+    if style == 'instance-hooks':
+        # plain Tracer() objects whose hooks were attached to the INSTANCE (tracer.on_request_end = callback, mock.patch.object ...)
+        out = []
+        for i in range(n):
+            t = Tracer()
+            t.on_request_begin = lambda tc, rq, i=i: log.append(['begin', i, id(tc), tc, rq, None])               # type: ignore[method-assign]
+            t.on_request_end = lambda tc, rq, rs, i=i: log.append(['end', i, id(tc), tc, rq, rs])                  # type: ignore[method-assign]
+            t.on_error = lambda tc, rq, er, i=i: log.append(['error', i, id(tc), tc, rq, er])                      # type: ignore[method-assign]
+            out.append(t)
+        return out
     return [(Rec if style == 'partial' else RecAll)(i) for i in range(n)]
